@@ -64,6 +64,12 @@
          chanSize packets follow, readLoop blocks on `incoming` for ever: kexLoop never ends,
          handshakeTransport.Close (called by mux.loop) never returns, Conn.Wait never returns.
 
+   Repair state: the main configurations (AsIs = FALSE) describe the code WITH fixes/X07-readloop-abandon-minimal.diff
+   as far as K2 goes (the hand-over to `incoming` can be abandoned: a connection that has ended leaves nothing
+   blocked); SSHPrelude_AsIsK2.cfg keeps the stall and must keep producing the NoStall counterexample.  K1 is an
+   open finding: the specification allows "queue" or "end the connection", the code as it is does neither.  The
+   harness names a stall from the goroutine dump whether readLoop waits in a plain send or in a select.
+
    Modelled as the code is, not charged (observations): the protocol version after "SSH-" is not looked at
    ("SSH-1.5-x" is accepted); lines before the identification string are tolerated from clients too; NUL
    and non-ASCII bytes are accepted; the name in SERVICE_ACCEPT is not compared; no DISCONNECT message is
